@@ -35,6 +35,12 @@ def configs(tier):
     for n in (4, 5):
         for m0 in (2, 3):
             cfgs.append({"name": f"history-n{n}-m0_{m0}", "n": n, "m0": m0, "fixed": [], "free": "all", "history": True})
+    # the same graphs fed differently: edges added in reverse order and reversed orientation, vertex labels with gaps, another EECC
+    # object used before (state shared between objects would leak)
+    for m0 in (2, 3):
+        cfgs.append({"name": f"all-n5-m0_{m0}-reversed-insertion", "n": 5, "m0": m0, "fixed": [], "free": "all", "variant": "rev"})
+        cfgs.append({"name": f"all-n5-m0_{m0}-gapped-labels", "n": 5, "m0": m0, "fixed": [], "free": "all", "variant": "gap"})
+        cfgs.append({"name": f"all-n4-m0_{m0}-after-another-object", "n": 4, "m0": m0, "fixed": [], "free": "all", "variant": "warm"})
     k4a = [(0, 1), (0, 2), (0, 3), (1, 2), (1, 3), (2, 3)]
     k4b = [(2, 3), (2, 4), (2, 5), (3, 4), (3, 5), (4, 5)]
     k5 = [(a, b) for a in range(5) for b in range(a + 1, 5)]
@@ -74,8 +80,20 @@ def path(ctx, cfg):
     n, m0 = cfg["n"], cfg["m0"]
     edges = fork_graph(ctx, cfg)
     desc = f"edges={edges} m0={m0}"
+    variant = cfg.get("variant")
+    if variant == "warm":
+        other = EECC()
+        other.add_edges_from([(0, 1), (0, 2), (1, 2), (2, 3), (3, 4), (2, 4), (1, 3)])
+        other.set_max_clique_size(3 if m0 == 2 else 2)
+        ctx.guard("eecc-raised", other.get_EECC)
+    if variant == "gap":
+        edges = [(3 * a + 2, 3 * b + 2) for a, b in edges]
     ec = EECC()
-    ec.add_edges_from(list(edges))
+    if variant == "rev":
+        ec.add_edges_from([(b, a) for a, b in reversed(edges)])
+    else:
+        ec.add_edges_from(list(edges))
+    desc = f"edges={edges} m0={m0}" + (f" [{variant}]" if variant else "")
     if cfg.get("history"):
         m1 = ctx.fork_int(ctx.int("first_bound", 2, 5))
         ctx.assume(m1 != m0)
